@@ -272,6 +272,14 @@ def _work_lemma(task):
             fi = repo.fns[tgt]
             out["info"] = {"file": fi.file, "function": tgt, "source_sha256": fi.sha, "loops": 0,
                            "kind": "block contract (statements located by pattern in this function)"}
+        if getattr(mod.LEMMAS[name], "external", False):
+            # a lemma checked by another tool (Lean): {sub-name: (status, back end, seconds)}
+            res = mod.LEMMAS[name](reg, repo)
+            out["n_total"] = len(res)
+            for k, (sub, (status, backend, secs)) in enumerate(sorted(res.items())):
+                out["results"].append({"name": "%s.lemma.%s.%s" % (prop, name, sub), "kind": "lemma", "status": status,
+                                       "backend": backend, "time": round(secs, 3), "info": {}, "k": k})
+            return out
         try:
             vcs = mod.LEMMAS[name](reg, repo)
         except Unsupported as u:
